@@ -1226,7 +1226,12 @@ func (e *MetaCDC) startReplicateDMLMsg(replicateCtx context.Context, entity *Rep
 					targetPosition: metaTargetPosition,
 				}
 			}
+			verifKeys, verifIdx := verifPositionOrder(positionInfos), 0
+		verifNextPosition:
 			for _, updatePositionInfo := range positionInfos {
+				if verifKeys != nil {
+					updatePositionInfo = positionInfos[verifKeys[verifIdx]]
+				}
 				writeCallback := NewWriteCallback(e.metaStoreFactory, e.rootPath, updatePositionInfo.taskID)
 				err := writeCallback.UpdateTaskCollectionPosition(
 					updatePositionInfo.collectionID,
@@ -1240,6 +1245,12 @@ func (e *MetaCDC) startReplicateDMLMsg(replicateCtx context.Context, entity *Rep
 					_ = e.pauseTaskWithReason(updatePositionInfo.taskID, "fail to update task position, err:"+err.Error(), []meta.TaskState{})
 					return err
 				}
+				if verifKeys != nil {
+					if verifIdx++; verifIdx < len(verifKeys) {
+						goto verifNextPosition
+					}
+					break
+				}
 			}
 			return nil
 		}
@@ -1252,6 +1263,7 @@ func (e *MetaCDC) startReplicateDMLMsg(replicateCtx context.Context, entity *Rep
 		}()
 
 		for {
+			msgChan = verifNilIfDone(replicateCtx, msgChan, "server:dml-msg")
 			select {
 			case <-replicateCtx.Done():
 				log.Warn("msg chan, the replicate context has closed", zap.String("channel", channelName))
